@@ -55,6 +55,8 @@ THEOREMS = [
     "Verif.C15.relabel_invariant_logLik",
     "Verif.C15.amplitude_constraint_one_free",
     "Verif.C15.amplitude_constraint_simplex",
+    "Verif.C15.reported_parameters_spec",
+    "Verif.C15.one_free_amplitude_reported_on_simplex",
     "Verif.C15.one_component_mle",
     "Verif.C15.mle_scalar_limit",
     "Verif.C15.extraction_spec",
@@ -919,6 +921,63 @@ def impl_lik(case):
     return out
 
 
+OPTIMIZE = "_exponential_mle_optimize"
+
+
+def assemble_fitted(case):
+    """which parameters are left to the optimiser (from the docstring of _handle_amplitude_constraint: everything not
+    fixed, except a single free amplitude, which is determined by the others)"""
+    n = case["n"]
+    fixed = [False] * (2 * n) if case["mask"] is None else list(case["mask"])
+    fitted = [not f for f in fixed]
+    free = [i for i in range(n) if fitted[i]]
+    if len(free) == 1:
+        fitted[free[0]] = False
+    return fitted
+
+
+def impl_assemble(case):
+    """_exponential_mle_optimize with scipy.optimize.minimize replaced by a stand-in that records what it is handed
+    (start vector, bounds, the gradient callback's answer at `probe`) and answers `probe`"""
+    import scipy.optimize
+
+    n = case["n"]
+    params = np.array([float(Fraction(p)) for p in case["params"]], dtype=float)
+    mask = None if case["mask"] is None else np.array(case["mask"], dtype=bool)
+    t, tmin, tmax, step, _ = lik_args(case)
+    probe = np.array(case["probe"], dtype=float)
+    seen = {"x0": [], "lo": [], "hi": [], "grad": []}
+
+    def stand_in(fun, x0, *a, **kw):
+        x0 = np.array(x0, dtype=float)
+        x = probe[: len(x0)]
+        seen["x0"] = list(x0)
+        bounds = list(kw.get("bounds") or [])
+        seen["lo"] = [float(b[0]) for b in bounds]
+        seen["hi"] = [float(b[1]) for b in bounds]
+        jac = kw.get("jac")
+        f = fun(x)
+        seen["grad"] = list(np.array(jac(x), dtype=float)) if callable(jac) else None
+        seen["constraints"] = kw.get("constraints")
+        fun(x0)  # like SLSQP, the stand-in does not end on the point it answers: the cost callback last saw x0
+        return scipy.optimize.OptimizeResult(x=x, fun=f, success=True, status=0, message="stand-in", nit=0)
+
+    try:
+        opt = priv(OPTIMIZE, n, t, tmin, tmax, initial_guess=params, fixed_param_mask=mask, discretization_timestep=step)
+        with minimize_replaced(stand_in):
+            p, ll = opt(n, t, tmin, tmax, initial_guess=params, fixed_param_mask=mask, discretization_timestep=step)
+    except Unreachable:
+        return ["?"]
+    except Exception as e:
+        return [errname(e)]
+    cons = seen.get("constraints")
+    cval = "none"
+    if isinstance(cons, dict):
+        cval = enc_float(cons["fun"](probe[: len(seen["x0"])], *cons["args"]))
+    grad = "?" if seen["grad"] is None else fl(seen["grad"])
+    return [f"? {fl(seen['x0'])} {fl(seen['lo'])} {fl(seen['hi'])} {fl(p)} {enc_float(float(ll))} {grad} {cval}"]
+
+
 def impl(case):
     with warnings.catch_warnings():
         warnings.simplefilter("ignore")
@@ -932,6 +991,8 @@ def _impl(case):
     k = case["op"]
     if k in ("lik", "likwin"):
         return impl_lik(case)
+    if k == "assemble":
+        return impl_assemble(case)
     if k == "fit":
         t, tmin, tmax, step, n = lik_args(case)
         status = []
@@ -1328,6 +1389,13 @@ def ops(case):
                     nc = case["ncomp"]
                     out.append(f"c15.jac {fl(v[0][:nc])} {fl(v[0][nc:])} {lik_tokens(case)}")
         return out
+    if k == "assemble":
+        mask = "N" if case["mask"] is None else enc_list(case["mask"], enc_bool)
+        n = len(case["t"])
+        lo = float(np.min(arr(case["tmin"], n)))
+        hi = float(np.max(arr(case["tmax"], n)))
+        return [f"c15.assemble {case['n']} {enc_list(case['params'], enc_rat)} {mask} {fl(case['probe'])} "
+                f"{lik_tokens(case)} {enc_float(lo)} {enc_float(hi)}"]
     if k == "constraint":
         mask = "N" if case["mask"] is None else enc_list(case["mask"], enc_bool)
         return [f"c15.constraint {case['n']} {enc_list(case['params'], enc_rat)} {mask} {enc_list(case['x'], enc_rat)}"]
@@ -1423,6 +1491,32 @@ def agree_extract(case, ia, ma, ordered):
 def agree(case, i, ia, ma):
     k = case["op"]
     try:
+        if k == "assemble":
+            if ia == "?":
+                return True
+            if ia.endswith("Error") or ma.endswith("Error") or ma == "bad-op":
+                return ia == ma
+            I, M = ia.split(" "), ma.split(" ")
+            fitted = [c == "T" for c in M[0][1:-1].split(",")] if M[0] != "[]" else []
+            for j in (1, 2, 3, 4):  # start vector, bounds, reported parameters: the same double operations on both sides
+                A, B = dec_fl(I[j]), dec_fl(M[j])
+                if len(A) != len(B) or not all(close(x, y, 1e-12) for x, y in zip(A, B)):
+                    return False
+            n = case["n"]
+            rep = dec_fl(I[4])
+            amps, taus = rep[:n], rep[n:]
+            t = np.array(case["t"], dtype=float)
+            if not close(dec_float(I[5]), dec_float(M[5]), 1e-9, 1e-11 * nll_scale(amps, taus, t)):
+                return False
+            if I[6] != "?":
+                A, B = dec_fl(I[6]), dec_fl(M[6])
+                no = len(t)
+                tol = grad_tolerance(amps, taus, t, arr(case["tmin"], no), arr(case["tmax"], no),
+                                     None if case["step"] is None else arr(case["step"], no), 1e-10, 0.0)
+                tol = [s_ for s_, f in zip(tol, fitted) if f]
+                if len(A) != len(B) or len(tol) != len(A) or not all(close(x, y, 1e-9, s_) for x, y, s_ in zip(A, B, tol)):
+                    return False
+            return True
         if k == "likwin":
             amps, taus = case["amps"], case["taus"]
             t = np.array(case["t"], dtype=float)
@@ -1547,6 +1641,8 @@ def oracle(case, ia):
             return oracle_lik(case, ia)
         if k == "likwin":
             return oracle_likwin(case, ia)
+        if k == "assemble":
+            return oracle_assemble(case, ia)
         if k == "fit":
             return oracle_fit(case, ia)
         if k == "constraint":
@@ -1594,6 +1690,63 @@ def oracle_likwin(case, ia):
             nllp = dec_float(ia[2])
             if not close(nll, nllp, 1e-10, 1e-12 * sc):
                 return f"relabel-invariant: -log L = {nll!r}, after relabelling components with {case['perm']} {nllp!r}"
+    return None
+
+
+def oracle_assemble(case, ia):
+    """from the property text: the reported log-likelihood is the model's likelihood at the reported parameters; fixed
+    parameters are reported as given, a single free amplitude completes the others to one, and what the optimiser
+    answered is reported in the fitted slots; the lifetime bounds are a proper interval"""
+    a = ia[0]
+    if a == "?":
+        return None
+    n = case["n"]
+    params = [Fraction(p) for p in case["params"]]
+    fixed = [False] * (2 * n) if case["mask"] is None else list(case["mask"])
+    sum_fixed = sum(p for p, f in zip(params[:n], fixed[:n]) if f)
+    free = [i for i in range(n) if not fixed[i]]
+    total = sum_fixed + (1 - sum_fixed if len(free) == 1 else 0)
+    invalid = sum_fixed > 1 or (len(free) <= 1 and abs(total - 1) > Fraction(11, 10**6))
+    if invalid:
+        return None if a == "ValueError" else f"constraint-simplex: an amplitude specification that cannot sum to one was accepted: {a[:120]}"
+    if a.endswith("Error"):
+        return f"fit-evaluates: valid fixed parameters and data inside the limits raised {a}"
+    I = a.split(" ")
+    x0, lo, hi, rep = dec_fl(I[1]), dec_fl(I[2]), dec_fl(I[3]), dec_fl(I[4])
+    ll = dec_float(I[5])
+    fitted = assemble_fitted(case)
+    k = sum(fitted)
+    probe = case["probe"][:k]
+    if len(rep) != 2 * n:
+        return f"reported-parameters: {len(rep)} parameters for {n} components"
+    it = iter(probe)
+    for i in range(2 * n):
+        if fitted[i]:
+            want = next(it)
+            if rep[i] != want:
+                return f"reported-parameters: the optimiser answered {want!r} for parameter {i}, reported is {rep[i]!r}"
+        elif i < n and not fixed[i]:
+            if abs(Fraction(rep[i]) - (1 - sum_fixed)) > Fraction(1, 10**12):
+                return f"amplitudes-sum-to-one: the only free amplitude is reported as {rep[i]!r}, the fixed ones sum to {float(sum_fixed)}"
+        elif Fraction(rep[i]) != params[i]:
+            return f"fixed-parameter-changed: parameter {i} was fixed at {float(params[i])!r}, reported is {rep[i]!r}"
+    if k and (len(x0) != k or len(lo) != k or len(hi) != k):
+        return f"optimiser-arguments: {k} parameters are fitted, start vector/bounds have {len(x0)}/{len(lo)}/{len(hi)} entries"
+    for l, h, x in zip(lo, hi, x0):
+        if not l < h:
+            return f"search-bounds: empty interval ({l!r}, {h!r})"
+    nobs = len(case["t"])
+    t, tmin, tmax = np.array(case["t"], dtype=float), arr(case["tmin"], nobs), arr(case["tmax"], nobs)
+    step = None if case["step"] is None else arr(case["step"], nobs)
+    with np.errstate(all="ignore"):
+        ref = -float(o_nll(rep[:n], rep[n:], t, tmin, tmax, step))
+    if math.isfinite(ref) and not close(ll, ref, 1e-9, 1e-10 * nll_scale(rep[:n], rep[n:], t)):
+        return f"reported-likelihood: log L = {ll!r} reported, the truncated mixture density at the reported parameters gives {ref!r}"
+    if I[7] != "none":
+        cval = dec_float(I[7])
+        s_amp = sum(Fraction(v) for v in rep[:n])
+        if abs(Fraction(cval) - (1 - s_amp)) > Fraction(1, 10**9):
+            return f"constraint-simplex: constraint value {cval!r} at the optimiser's answer, 1 - sum of reported amplitudes is {float(1 - s_amp)!r}"
     return None
 
 
@@ -1907,6 +2060,8 @@ def nontrivial(case, ia):
         return len(case["amps"]) >= 2 or case["step"] is not None or case["tmax"] != "inf"
     if k == "likwin":
         return window_depth(case) > 745.0
+    if k == "assemble":
+        return not ia[0].endswith("Error") and (case["mask"] is not None and any(case["mask"]) or case["n"] >= 2)
     if k == "fit":
         return " " in ia[0]
     if k == "constraint":
@@ -1947,7 +2102,7 @@ def tags(case, r):
 
 def shrink(case):
     k = case["op"]
-    if k in ("lik", "likwin", "validate") and len(case["t"]) > 1:
+    if k in ("lik", "likwin", "validate", "assemble") and len(case["t"]) > 1:
         n = len(case["t"])
         for keep in (slice(0, n // 2), slice(n // 2, n), slice(0, n - 1), slice(1, n)):
             c = dict(case)
@@ -2219,6 +2374,36 @@ def gen_likwin(rng, i):
             rng.shuffle(perm)
     return {"stream": "random-likwin", "op": "likwin", "amps": amps, "taus": taus, "t": t, "tmin": lo_, "tmax": hi_,
             "step": (st_ if discrete else None), "perm": perm, "subseed": i}
+
+
+def gen_assemble(rng, tier, i):
+    """a fit with some parameters fixed: 1-3 components, amplitudes in 64ths (sums exact in doubles), every kind of mask
+    (none, all fixed, one/several free amplitudes, fixed lifetimes), data of the usual kinds; `probe` is the answer the
+    stand-in optimiser gives (amplitudes anywhere inside the bounds, not necessarily on the simplex)"""
+    n = rng.choice([1, 2, 2, 3, 3])
+    pa, pt = gen_params(rng, n)
+    discrete = rng.chance(0.5)
+    size = rng.choice([1, 2, 5, rng.randint(1, 40), rng.randint(20, 200)])
+    t, tmin, tmax, step = gen_obs(rng, pa, pt, discrete, size, rng.chance(0.4), one_scale=True)
+    cuts = sorted(rng.randint(0, 64) for _ in range(n - 1))
+    ks = [b - a for a, b in zip([0] + cuts, cuts + [64])]
+    if rng.chance(0.15):
+        ks[rng.randint(0, n - 1)] += rng.choice([1, -1, 8, 64])  # does not sum to one: matters when <= 1 amplitude is free
+    amps = [Fraction(max(k, 1), 64) for k in ks]  # admissible: every amplitude positive
+    taus = [Fraction(x * rng.choice([0.5, 1.0, 1.0, 2.0, 1.25])) for x in pt]
+    mask = None if rng.chance(0.15) else [rng.chance(0.45) for _ in range(2 * n)]
+    if mask is not None and rng.chance(0.15):
+        mask = [True] * n + mask[n:]
+    if mask is not None and sum(1 for f in mask[:n] if not f) == 1 and sum(a for a, f in zip(amps, mask[:n]) if f) == 1:
+        # the single free amplitude would be determined as 0: outside the admissible family (log-likelihood of a
+        # component with amplitude 0); free a second amplitude instead
+        mask[[i for i in range(n) if mask[i]][0]] = False
+    case = {"stream": "random-assemble", "op": "assemble", "n": n, "params": [str(p) for p in amps + taus], "mask": mask,
+            "t": t, "tmin": tmin, "tmax": tmax, "step": step, "subseed": i}
+    qa = simplex(rng, n) if rng.chance(0.5) else [rng.loguniform(1e-3, 0.9) for _ in range(n)]
+    full = qa + [x * rng.loguniform(0.5, 2.0) for x in pt]
+    case["probe"] = [v for v, f in zip(full, assemble_fitted(case)) if f]
+    return case
 
 
 def gen_constraint(rng, i):
@@ -2541,8 +2726,8 @@ def cases(tier, rng):
                               {"kymo": 1, "idx": [], "minobs": 0.5} if minobs else {"kymo": 1, "idx": [1], "minobs": None}]}
 
     # ---- seeded random streams
-    sizes = {"lik": 260, "fit": 140, "constraint": 400, "extract": 500, "extract-seq": 300, "validate": 60, "likwin": 120} if quick else \
-            {"lik": 4000, "fit": 2500, "constraint": 6000, "extract": 8000, "extract-seq": 5000, "validate": 600, "likwin": 1500}
+    sizes = {"lik": 260, "fit": 140, "constraint": 400, "extract": 500, "extract-seq": 300, "validate": 60, "likwin": 120, "assemble": 250} if quick else \
+            {"lik": 4000, "fit": 2500, "constraint": 6000, "extract": 8000, "extract-seq": 5000, "validate": 600, "likwin": 1500, "assemble": 4000}
     # ---- small scope: window probability below the range of doubles (the factored normalisation), all combinations
     for amps, taus in (([1.0], [0.001]), ([0.25, 0.75], [0.001, 0.01]), ([0.5, 0.25, 0.25], [0.01, 0.001, 0.1])):
         for lo2 in (1.0, 4.0):
@@ -2560,6 +2745,20 @@ def cases(tier, rng):
     r = rng.fork("c15-likwin")
     for i in range(sizes["likwin"]):
         yield gen_likwin(r.fork(i), i)
+    # ---- small scope: what is handed to the optimiser, every mask for n <= 2 x amplitude vectors x model kind
+    for n, amp_sets, taus in ((1, [["1"], ["1/2"]], ["1/2"]), (2, [["1/4", "3/4"], ["1/2", "1/4"], ["3/4", "1/2"]], ["1/2", "4"])):
+        for amps in amp_sets:
+            for mask in [None] + [list(m) for m in itertools.product([False, True], repeat=2 * n)]:
+                for step in (None, 0.25):
+                    for tmax in (6.0, "inf"):
+                        c = {"stream": "small-scope", "op": "assemble", "n": n, "params": amps + taus, "mask": mask,
+                             "t": [0.5, 0.75, 1.5, 4.0], "tmin": 0.5, "tmax": tmax, "step": step}
+                        full = ([0.3, 0.6] if n == 2 else [0.9]) + ([0.7, 3.0] if n == 2 else [1.1])
+                        c["probe"] = [v for v, f in zip(full, assemble_fitted(c)) if f]
+                        yield c
+    r = rng.fork("c15-assemble")
+    for i in range(sizes["assemble"]):
+        yield gen_assemble(r.fork(i), tier, i)
     r = rng.fork("c15-fit")
     for i in range(sizes["fit"]):
         yield gen_fit(r.fork(i), tier, i)
@@ -2593,6 +2792,8 @@ def extra_coverage(results):
     seq_edits = {}
     rare_lik = 0
     deep = {"cases": 0, "depth-745-1000": 0, "depth-1000-2500": 0, "depth-2500-5000": 0, "tmax-inf": 0, "discretised": 0}
+    asm = {"cases": 0, "ValueError": 0, "nothing-to-fit": 0, "all-fitted": 0, "some-fixed": 0, "one-free-amplitude": 0,
+           "fixed-lifetime": 0, "constraint-handed": 0}
     handed = {"fits": 0, "gradient-requests": 0, "inside-the-explored-family": 0, "fits-with-a-request-checked": 0,
               "checked-with-an-amplitude-below-1e-3": 0, "checked-with-an-amplitude-below-1e-6": 0}
     pooled = {"fits-with-array-limits": 0, "several-distinct-windows": 0, "density-integrated": 0, "points-outside-some-window": 0}
@@ -2624,6 +2825,20 @@ def extra_coverage(results):
                 1 for x in pool_points(c) if any(not (lo <= x < hi) for (lo, hi, _), _ in cl) and any(lo <= x < hi for (lo, hi, _), _ in cl))
         if c["op"] == "lik" and min(c["amps"]) < 1e-4:
             rare_lik += 1
+        if c["op"] == "assemble":
+            asm["cases"] += 1
+            a = r["impl"][0]
+            if a.endswith("Error"):
+                asm["ValueError"] += 1
+            elif a != "?":
+                fitted = assemble_fitted(c)
+                fixed = [False] * (2 * c["n"]) if c["mask"] is None else c["mask"]
+                asm["nothing-to-fit"] += not any(fitted)
+                asm["all-fitted"] += all(fitted)
+                asm["some-fixed"] += any(fixed)
+                asm["one-free-amplitude"] += sum(1 for f in fixed[: c["n"]] if not f) == 1
+                asm["fixed-lifetime"] += any(fixed[c["n"]:])
+                asm["constraint-handed"] += a.split(" ")[7] != "none"
         if c["op"] == "likwin":
             d = window_depth(c)
             deep["cases"] += 1
@@ -2686,7 +2901,8 @@ def extra_coverage(results):
             "windows": windows, "model_kind": model_kind, "slsqp_exit_of_fits": slsqp, "discrete_inf_sums_not_covering_support_skipped": uncovered,
             "extraction": ext, "extraction_same_group_object_edited": dict(seq, edits=seq_edits), "amplitude_constraint": cons, "pdf_of_pooled_windows": pooled,
             "gradient_handed_to_the_optimiser": handed, "lik_cases_with_an_amplitude_below_1e-4": rare_lik,
-            "likelihood_with_window_probability_below_the_range_of_doubles": deep, "exhaustive": False,
+            "likelihood_with_window_probability_below_the_range_of_doubles": deep,
+            "optimiser_assembly_with_fixed_parameters": asm, "exhaustive": False,
             "exhaustive_note": "the small-scope streams enumerate their finite spaces completely; the random streams do not",
             "dropped_for_margin": dict(_DROPPED),
             "private_members_the_harness_could_not_reach": dict(_UNREACHABLE)}
